@@ -186,8 +186,18 @@ def check_curve(case):
     return {"nontrivial": varies and n >= 1 and (not rescale or abs(case["T"] - t0) > 1.0), "classes": classes}
 
 
+@st.composite
+def process_strategy(draw):
+    c = draw(procs.process_case(kinds=("nonideal-iso", "nonideal-noniso"), removal=(1e-4, 0.15), max_steps=6))
+    if draw(st.integers(0, 9)) < 3:  # modelling starts exactly at a curve temperature (the "equal to the curve temperature" class)
+        c["T"] = draw(st.sampled_from([cv["T"] for cv in c["curves"]["curves"]]))
+        if c["perm"]["mode"] == "temperature":
+            c["perm"]["T"] = min(c["perm"]["T"], c["T"])
+    return c
+
+
 PARTS = [
-    Part("process", lambda tier: procs.process_case(kinds=("nonideal-iso", "nonideal-noniso"), removal=(1e-4, 0.15), max_steps=6), check_process,
+    Part("process", lambda tier: process_strategy(), check_process,
          {"quick": 200, "thorough": 6000}, floor={"quick": 25, "thorough": 800}, shrink={"quick": False, "thorough": True}),
     Part("curve", lambda tier: curve_strategy(), check_curve, {"quick": 160, "thorough": 5000}, floor={"quick": 20, "thorough": 600},
          shrink={"quick": False, "thorough": True}),
